@@ -49,7 +49,7 @@ class Fault:
 
 
 def choose_out(rng, S, mode=None):
-    ids = [n.id for n in S.ir.nodes if S.rp.role[n.id] != "producer"]
+    ids = [n.id for n in S.ir.nodes if S.rp.role[n.id] != "producer" and n.id not in S.rp.chain_lits]
     mode = mode or rng.choice(["none", "none", "one", "some", "all", "sinks", "bare", "bare"])
     if mode == "none" or not ids:
         return None
@@ -113,6 +113,10 @@ def c09_check(S, exp, out_ids, result):
                             f"(reads of the store: {[(a, b) for _, a, b in S.stores[n].reads_returned]})"), 0, 0
             elif st < w_end:
                 return f"plain dependent n{m} started (seq {st}) before the rebuilt value of n{n} was written (seq {w_end})", 0, 0
+        for m in S.lit_successor_calls(n):
+            st = first.get(("start", m))
+            if m in exp.execs and st is not None and st < w_end:
+                return f"n{m}, which depends on rebuilt n{n} through a literal, started (seq {st}) before the rebuilt value was written (seq {w_end})", 0, 0
         # every stored value downstream is rebuilt in the same run and after it
         for m in S.reg:
             if n in S.reg_anc[m]:
@@ -211,8 +215,8 @@ def run_history(desc, props=("C03", "C05", "C09")):
             continue
         if kind == "delete":
             i = rng.choice(deletable)
-            S.stores[i].delete()
-            log.append(f"{si}: delete s{i}")
+            gone = S.delete(i)
+            log.append(f"{si}: delete {['s%d' % g for g in gone]}")
             stats["deletions"] += 1
             continue
         if kind == "fresh_now":
@@ -234,8 +238,9 @@ def run_history(desc, props=("C03", "C05", "C09")):
             nb = len(exp.execs) + 2 * len(exp.writes) + len(exp.reads) + len(S.reg)
             f = Fault(H, k=rng.randint(1, max(1, nb)), kind=rng.choice(["exc", "base"]))
             f.install()
+            me = rng.choice([0, 0, 1, 3, None])  # the run may be allowed to go on after the failure
             try:
-                res, exc = S.run(out_ids, W=W, sched=sched, fresh_tick=fresh, perturb=perturb, seed=seed + si)
+                res, exc = S.run(out_ids, W=W, sched=sched, fresh_tick=fresh, perturb=perturb, seed=seed + si, max_errors=me)
             finally:
                 f.uninstall()
             stats["faulted_runs"] += 1
